@@ -16,7 +16,8 @@ CONSTANTS Kinds,      \* subset of {"single","owned","boxed","ref","retry"}
           MaxLenA, MaxLenB,
           Policies,   \* subset of {"RP","WP"}
           NT,         \* number of threads (2 or 3)
-          Keys        \* key styles for scoped calls, subset of {"lent","owned"}
+          Keys,       \* key styles for scoped calls, subset of {"lent","owned"}
+          PartK, PartN \* this TLC process explores scenarios i with i % PartN = PartK
 
 Arena == <<Leaf("R"), Leaf("R"), Leaf("M"), Unit(<<6, 5>>), Leaf("R"), Leaf("R")>>
 
@@ -47,8 +48,13 @@ Combos == IF NT = 2 THEN {<<a, b>> : a \in CallSpecs(ApisA, UnivA, MaxLenA), b \
 RawScens == SetToSeq({MkScen(cb, pol) : cb \in Combos, pol \in Policies})
 
 \* (one line per scenario is printed for the replay generator)
-MCScenTab == LET rs == RawScens IN
-             [i \in 1..Len(rs) |-> IF PrintT(<<"SCEN", i, ToJson(rs[i])>>) THEN Derive(rs[i]) ELSE Derive(rs[i])]
+Mine(i) == i % PartN = PartK
+\* NB: a definition used as a CONSTANT override is re-evaluated by TLC on every
+\* use; the indirection MCScenTab == MCScenTab0 makes the table a cached value.
+MCScenTab0 == LET rs == RawScens IN
+             [i \in 1..Len(rs) |-> IF Mine(i) /\ PrintT(<<"SCEN", i, ToJson(rs[i])>>) THEN Derive(rs[i]) ELSE <<>>]
+MCScenTab == MCScenTab0
+MCInit == \E s \in {i \in 1..Len(ScenTab) : Mine(i)} : InitFor(s)
 
 NextP == Next /\ PrintT(<<"E", sid, hist'>>)
 =============================================================================
